@@ -35,6 +35,7 @@ CONSTANTS NU, NS,     \* first NU units / NS starts of the lists
           Algo,
           ExtFilter,  \* extend_dim drops generated coordinates that are not strictly inside (start, stop)  [repaired] / keeps them [as found]
           CoordDtype, \* extend_dim builds the new coordinates with the dtype of the "axis" [the code] / of the "data" [history: seeded defect r7sb2]
+          StopDefault,\* extend_dim with stop omitted: "last" = the last coordinate [the code] / "next" = last + step [history: seeded defect r8sb1]
           FillBy,     \* extend_dim: "reindex" = reindex(fill_value=...) [the code] / "fillna" = reindex().fillna(...) [history: seeded defect r4sb1]
           LenBy,      \* crop_dim_width centre offset from "sizes" = array.sizes[dim] [the code] / "len" = len(array) [history: seeded defect r4sb2]
           RangeFrom   \* get_dim_range: "index" = min / max of the coordinates [the code]
@@ -65,6 +66,11 @@ MkExtendSv(x, sv) == [kind |-> "extend", s |-> x.s, a4 |-> x.a4, n |-> x.n, src 
                       lc |-> x.lc, rc |-> x.rc, fill |-> IF x.rc THEN -7 ELSE 0, sv |-> sv]
 MkExtend(x) == MkExtendSv(x, SubSeq(Zeros, 1, x.n))
 \* non-numeric originals on a sub-universe: first two units, first start, step attribute, ends on whole steps
+\* start and / or stop omitted (sn, en): that side of the requested interval is the axis end itself
+MkExtendNone(x, sn, en) == [MkExtend(x) EXCEPT !.ms = IF sn THEN 0 ELSE x.ms, !.me = IF en THEN 4 * (x.n - 1) ELSE 4 * (x.n - 1) + x.de] @@ [sn |-> sn, en |-> en]
+ExtendNoneCases == {MkExtendNone(x, sn, en) : x \in {y \in ExtendCases : y.s \in {UnitList[1], UnitList[2], UnitList[3]} /\ y.a4 = StartList[1] /\ y.src = "attr"},
+                                              sn \in BOOLEAN, en \in BOOLEAN}
+ExtendNoneOK(c0) == (c0.sn \/ c0.en)
 ExtendNanOK(x) == x.s \in {UnitList[1], UnitList[2]} /\ x.a4 = StartList[1] /\ x.src = "attr" /\ x.ms % 4 = 0 /\ x.de % 4 = 0
 \* od = 0: a 1-D array.  od > 0: a 2-D array whose other dimension has od samples; ax = 1 / 2: the operated dimension is the
 \* first / second one (the time axis of a frequency x time spectrogram is the second)
@@ -131,6 +137,7 @@ Init == /\ pc = "start"
            \/ \E x \in {y \in ExtendCases : ExtendNanOK(y)} : \E sv \in SvPatterns(x.n) : c = Plain(MkExtendSv(x, sv))
            \/ \E x \in {y \in SurplusCases : SurplusOK(y)} : c = Plain(x)
            \/ \E x \in ChainCases : c = Plain(x)
+           \/ \E x \in {y \in ExtendNoneCases : ExtendNoneOK(y)} : c = Plain(x)
            \/ \E x \in {y \in Base : DtypeSub(y)} : \E v \in DtypeVars(x.s) : c = Typed(IF "fill" \in DOMAIN x THEN [x EXCEPT !.fill = 0] ELSE x, v[1], v[2])
         /\ r = [R0 EXCEPT !.hi = c.n - 1]
 
@@ -189,10 +196,12 @@ ExtendLeft == /\ pc = "start" /\ O.op = "extend"
                  \E k \in ArangeLens(num8, c.s, FALSE) : \E rel \in Rels(num8, c.s, k) :
                     r' = [r EXCEPT !.nl = k, !.lrel = rel, !.bad = r.bad \/ (k > 0 /\ (CurStart8 # 8 * r.lo \/ CastBreaks))]
               /\ pc' = "right" /\ UNCHANGED c
+\* stop omitted: stop = current_stop (seeded: current_stop + step), then + eps if right_closed
+StopNow == IF c.kind = "extend" /\ "en" \in DOMAIN c /\ c.en /\ StopDefault = "next" THEN 8 * (r.hi + 1) + (IF O.rc THEN 1 ELSE 0) ELSE Stop8
 \* if stop >= current_stop: arange(coords[-1], stop, step)[1:]
 ExtendRight == /\ pc = "right"
-               /\ IF Stop8 >= CurStop8
-                  THEN LET num8 == Stop8 - 8 * r.hi IN
+               /\ IF StopNow >= CurStop8
+                  THEN LET num8 == StopNow - 8 * r.hi IN
                        \E k \in ArangeLens(num8, c.s, FALSE) : \E rel \in Rels(num8, c.s, k) :
                           r' = [r EXCEPT !.nr = Max(k - 1, 0), !.rrel = rel, !.bad = r.bad \/ (k > 1 /\ CastBreaks)]
                   ELSE r' = [r EXCEPT !.nr = 0]
@@ -204,7 +213,7 @@ Reindex == /\ pc = "reindex"
                              !.lost = r.lost \/ (FillBy = "fillna" /\ c.kind = "extend" /\ \E j \in 1..c.n : c.sv[j] = 1),
                              !.ha = IF O.op = "extend" THEN TRUE ELSE r.ha,
                              !.at0 = IF O.op = "extend" THEN Start8 ELSE r.at0,
-                             !.at1 = IF O.op = "extend" THEN Stop8 ELSE r.at1]
+                             !.at1 = IF O.op = "extend" THEN StopNow ELSE r.at1]
            /\ pc' = "fin" /\ UNCHANGED c
 
 (* ------------------------------------------------------------- width: Impl *)
@@ -249,16 +258,16 @@ LawCropClosedness == c.kind = "crop" =>       \* an end that is a coordinate is 
     LET S == CropIdx(c.n, c.ms, c.me, c.lc, c.rc) IN
     /\ (c.ms % 4 = 0 /\ c.ms < c.me) => ((c.ms \div 4) \in S <=> c.lc)
     /\ (c.me % 4 = 0 /\ c.ms < c.me) => ((c.me \div 4) \in S <=> c.rc)
-ImplExtend == (c.kind = "extend" /\ Done) => <<r.lo, r.hi>> \in Extents(c.s, c.ms, c.me, c.lc, c.rc)
+ImplExtend == (c.kind = "extend" /\ Done) => <<r.lo, r.hi>> \in Extents(c.s, c.ms, c.me, ELc(c), ERc(c))
 ImplOpenEndExcluded == (c.kind \in {"extend", "chain"} /\ Done) => r.lrel # "out" /\ r.rrel # "out"
 LawExtendContains == c.kind = "extend" =>    \* every accepted extent contains the axis and lies inside the interval (guard aside)
-    \A w \in Extents(c.s, c.ms, c.me, c.lc, c.rc) :
+    \A w \in Extents(c.s, c.ms, c.me, ELc(c), ERc(c)) :
         /\ w[1] <= 0 /\ w[2] >= c.n - 1
         /\ \A j \in w[1]..w[2] : InIv(4 * j, c.ms, c.me, TRUE, TRUE)
 LawExtendExact == (c.kind = "extend" /\ Dyadic(c.s)) =>
-    Extents(c.s, c.ms, c.me, c.lc, c.rc) = {<<ExtLo(c.ms, c.lc), ExtHi(c.me, c.rc)>>}
+    Extents(c.s, c.ms, c.me, ELc(c), ERc(c)) = {<<ExtLo(c.ms, ELc(c)), ExtHi(c.me, ERc(c))>>}
 LawExtendIsInterval == c.kind = "extend" =>
-    {j \in (-Ext - 2)..(c.n + Ext + 2) : InIv(4 * j, c.ms, c.me, c.lc, c.rc)} = ExtLo(c.ms, c.lc)..ExtHi(c.me, c.rc)
+    {j \in (-Ext - 2)..(c.n + Ext + 2) : InIv(4 * j, c.ms, c.me, ELc(c), ERc(c))} = ExtLo(c.ms, ELc(c))..ExtHi(c.me, ERc(c))
 ImplExactlyWidth == (c.kind = "width" /\ Done) => r.len = c.w
 ImplPlacement    == (c.kind = "width" /\ Done) => r.off \in Offs(c.pos, IF r.len >= c.n THEN r.len - c.n ELSE c.n - r.len)
 LawOffs == c.kind = "width" => \A d \in 0..(2 * MaxN + 3) : \A o \in Offs(c.pos, d) : 0 <= o /\ o <= d
